@@ -22,8 +22,8 @@ CONSTANTS AlphaName,  \* which alphabet: "all" | "q" (C11 quick) | "t" (C11 thor
 AlphaQ ==
   {MHi("A"), MHi("B"), MHi("bad"), MHi("old")}
   \cup {MLogin("basic", s) : s \in {"right", "wrong", "needscred"}}
-  \cup {MLogin("token", s) : s \in {"right", "rightroot", "expired", "deleted", "nologin"}}
-  \cup {MLogin("reset", "known"), MLogin("unknown", "x")}
+  \cup {MLogin("token", s) : s \in {"right", "rightroot", "expired", "deleted", "nologin", "prev"}}
+  \cup {MLogin("reset", "known"), MLogin("unknown", "x"), MConn}
   \cup {MAcc("new", "T", "basic", "none", "F", "none"), MAcc("new", "T", "basicR", "none", "F", "none"),
         MAcc("self", "F", "basic", "none", "F", "none"), MAcc("self", "F", "basic", "tokR", "F", "none")}
   \cup {MTop("sub", "me", "none", "none"), MTop("sub", "grp", "none", "none"), MTop("sub", "grp", "none", "valid"),
@@ -37,7 +37,9 @@ AlphaT == AlphaQ
         MAcc("self", "F", "basic", "unknown", "F", "none")}
   \cup {MTop("sub", "usr", "none", "none"), MTop("sub", "sys", "none", "none"), MTop("leave", "grp", "none", "valid"),
         MTop("del", "grp", "topic", "none"), MTop("set", "me", "desc", "lvl")}
-AlphaSet == CASE AlphaName = "q" -> AlphaQ [] AlphaName = "t" -> AlphaT [] OTHER -> AllMsgs
+\* "all" without token tracking: the universe minus the two messages that need it
+AlphaSet == CASE AlphaName = "q" -> AlphaQ [] AlphaName = "t" -> AlphaT
+              [] OTHER -> IF TrackTok THEN AllMsgs ELSE AllMsgs \ {MConn, MLogin("token", "prev")}
 \* Messages are addressed by index in the printed histories.  TLC re-evaluates a definition that depends on a declared
 \* CONSTANT at every use; the sequence is therefore computed once (an ASSUME sets the register for every worker).
 ASSUME TLCSet(7, SetToSeq(AlphaSet))
@@ -56,7 +58,7 @@ Next ==
   /\ \E i \in DOMAIN Alphabet : \E o \in Dispatch(st, Alphabet[i]) : \E cs \in ModelCodeSets(o.rep) :
        /\ st' = o.st
        /\ hist' = Append(hist, i)
-       /\ viol' = Violated(Proj(st), Alphabet[i], cs, Proj(o.st), o.dlv)
+       /\ viol' = Violated(Proj(st), Alphabet[i], cs, Proj(o.st), o.dlv, PtkOf(st.tok))
 
 Spec == Init /\ [][Next]_vars
 
